@@ -132,7 +132,7 @@ class Bindings:
                 if sh == 'unwrap_or' and len(e['args']) > 1:
                     o = o | {x + '(default)' for x in self.origins(e['args'][1], depth + 1)}
                 return o
-            return {f'call({name})'}
+            return {f'call({name})' + (f'@{e.get("ln")}' if getattr(self, 'sites', False) else '')}
         if k == 'struct':
             return {f"struct({e.get('path')})"}
         if k == 'if':
